@@ -1,9 +1,13 @@
 check('C08', 'proof',
-      'Proved for all inputs (no bound): the meta-expression matchers of tatsu/input/cursor.py never raise, only accept text the '
-      'int()/float() converters accept, and move the cursor exactly over the match. VCs are generated from the current source.',
+      'Proved for all inputs (no bound), VCs generated from the current source: the meta-expression matchers of tatsu/input/cursor.py never raise, accept only '
+      'text the int()/float() converters accept (the float literal language is now proved too, it was a bounded lemma), and move the cursor exactly over the match; '
+      'the token-skipping loops and the repetition loop of ParseContext.repeat terminate (measure: remaining text; rests on "a parse function that succeeds never moves '
+      'backwards", stated in the generic PARSE contract and proved for the primitives); line lookups are index safe. Bounded (never counted as proved): every '
+      'repetition form over elements and separators that can match the empty string and every meta expression x all inputs up to the bound, under a watchdog: '
+      'each parse ends with a value or a FailedParse positioned inside the text.',
       'Trusted: pyvc encoding of python, the built-in model (int()/float() accepted language, str predicates via validated '
-      'character-class axioms), z3. match_float language clause is a bounded lemma (reported as discharged_modulo_bounded).',
-      'contract-based deductive verification: sidecar contracts, VCs from the real AST by path-replay symbolic execution, z3/cvc5',
+      'character-class axioms), z3. Whole-parse termination beyond the proved loop measures is only watchdog-bounded.',
+      'contract-based deductive verification: sidecar contracts, VCs from the real AST by path-replay symbolic execution, z3/cvc5; bounded API-level runs as stand-in for whole parses',
       '3/C08')
 check('C09', 'proof',
       'Proved for all texts/tokens/configurations: TextLinesCursor.match implements the documented token rule (prefix match, case-folded iff '
@@ -56,12 +60,16 @@ check('C11', 'proof',
       'Trusted: pyvc, z3, str()/upper() as uninterpreted functions; keyword-set normalisation in Grammar/ParserConfig and the generated parser are bounded runs.',
       'contract-based deductive verification (pyvc) + bounded keyword matrix', '3/C11')
 check('C18', 'other',
-      'Bounded stand-in, not a proof: the REAL executor_pmap loop and taskproc are run against the contract "one result per payload, outcome or captured '
+      'Proved for all inputs (pyvc, from the current source): taskproc -- a task\'s result carries its payload and either the function\'s outcome (made pickable) or '
+      'the very exception it raised; a stopped loop does not call the function; an exception escapes only when it is not an ordinary one, re-raising was asked for, or the '
+      'payload\'s raises() list excludes it (67 obligations; VisualPayload\'s backwards-compatibility retry is outside the contract). Bounded stand-in, not a proof, for the loop: '
+      'the REAL executor_pmap loop and taskproc are run against the contract "one result per payload, outcome or captured '
       'exception, multiset equal to sequential mode" with a deterministic contract-conforming executor whose completion order is enumerated exhaustively '
       '(all orders, worker counts 1..3, every raising subset, both submit strategies) up to the stated number of payloads, plus sampled real thread pools. '
       'No deductive verifier reaches generator-based loops over concurrent.futures here; said so in DESIGN.md.',
-      'Bound: payload count (quick <= 5 model / <= 4 real as_completed). Real OS scheduling and process pools are sampled only.',
-      'bounded schedule-exhaustive contract checking of the real loop (stand-in for contract-based verification; labelled bounded)', '3/C18')
+      'Bound: payload count (quick <= 5 model / <= 4 real as_completed). Real OS scheduling and process pools are sampled only. taskproc: the task function and '
+      'pickable are generic contracts (a value or any exception); sys/time/memory_use are external functions without claims.',
+      'contract-based deductive verification of taskproc (pyvc); bounded schedule-exhaustive contract checking of the real loop (labelled bounded)', '3/C18')
 check('C19', 'other',
       'Bounded stand-in, not a proof: encode/decode inverses of the real functions over all strings up to a length bound on the adversarial alphabet, '
       'nested payloads, all interleavings of <= 3 sends x <= 3 receives on the real queue, truncation of the queue file at EVERY byte offset of the last record, single-byte corruptions. '
@@ -79,7 +87,7 @@ check('C10', 'other',
       'with the same call in a fresh interpreter process; grammar models, configs and semantics objects are snapshotted before/after. '
       'The relational cache obligation (key determines every argument the result depends on) is not expressible in the current pyvc subset (reflection over **settings); '
       'threads are not covered by this family at all.',
-      'Bounds: sequence length <= 3, 6 grammars x 8 variants. Schedules (threads) N/A.',
+      'Bounds: sequence length <= 3, 6 grammars x 8 variants; constant-expression histories (names bound by an earlier parse must not be visible to a later one). Schedules (threads) N/A.',
       'bounded history enumeration against fresh-process references (labelled bounded)', '3/C10')
 check('C12', 'proof',
       'Proved for all texts (no bound): PosLine.build_line_cache builds, for every offset p < len, the entry (start of the line containing p, its number, its length) and for p = len the '
@@ -94,19 +102,26 @@ check('C17', 'proof',
       'Trusted: pyvc, z3, ast.walk yields every node (assumed), CPython eval with empty __builtins__. Attribute traversal inside str.format is a stated limit (known finding).',
       'contract-based deductive verification (pyvc) + bounded audit-hook runs', '3/C17')
 check('C02', 'other',
-      'Bounded stand-in (the generator is a printer of python source text; its output is outside what a pyvc contract can state): ~500 description grammars '
+      'Proved (pyvc): the runtime primitives only generated code calls -- nameset/nameadd/result/resultadd, option/optional/group/skipgroup/if_/ifnot_, ChoiceContext.parse and choice() '
+      '(ordered choice with cut), and ParserEngine.bound (the configuration in force during a parse and the idle state restored at EVERY exit, which matters for generated parsers because '
+      'their objects are reused across parses). Bounded stand-in for the generator (a printer of python source text; its output is outside what a pyvc contract can state): ~500 description grammars '
       '(sampled, a naming matrix, every cut grammar) x all strings up to length 4 over a 4-letter alphabet x 7 parse-time settings, plus ~90 grammar texts with directives, '
       'rule parameters, @name, upper-case rules, keyword-like rule names x 13 settings: the generated source compiles, and model and generated parser agree on '
-      'accept/reject, AST, exception class and action calls. The runtime primitives the generated code calls (group, nameset, option, closure, ...) carry proved contracts under C01/C05.',
+      'accept/reject, AST, exception class and action calls; histories on ONE reused generated parser object (failed parses, parse-time settings) against fresh objects.',
       'Bounds per run in the evidence. Four differences are known findings (names pre-defined by sequences only, rule names colliding after python-safe renaming, '
       'value of a named void/lookahead, internal override key).',
-      'bounded differential checking of model vs generated parser (labelled bounded)', '3/C02')
+      'contract-based deductive verification of the generated-code runtime (pyvc); bounded differential checking of model vs generated parser (labelled bounded)', '3/C02')
 check('C13', 'other',
-      'Bounded stand-in: for grammar models over the full expression language (from text, JSON, the ANTLR translator), every term kind in every context and token/pattern/constant '
+      'Proved for all inputs (pyvc, from the current source), last clause of the property ("the railroad rendering completes with tracks of consistent width"): every layout '
+      'function of tatsu/railroads/railmath.py (pad, railpad_, blankpad, assert_one_length, looptail, stopnloop, loop, weldtwo, weld, lay_out) returns rails of ONE display width '
+      'given rails of one width, its internal assertions never fail, and 30 walk_* methods of RailroadNodeWalker return a non-empty block of one width given that the recursive '
+      'self.walk(child) does (generic contract WALK; ~440 obligations). Display width is an uninterpreted function that is additive over concatenation (trusted theory, instantiated on '
+      'every string the code builds). Bounded stand-in for the rest: for grammar models over the full expression language (from text, JSON, the ANTLR translator), every term kind in every context and token/pattern/constant '
       'texts over an adversarial alphabet up to the stated length: compile(pretty(m)) accepts the same inputs with equal ASTs, keeps directives/keywords/params/decorators, pretty is a '
-      'fixpoint, railroads() completes with rails of equal display width. Assertion safety of railmath is planned as a proof (DESIGN 3/C13); string-building pretty printers are outside the pyvc subset.',
-      'Bounds per run in the evidence. Three syntax-level limitations are known findings (both quote kinds in one token, backquote inside a constant, an empty-constant fixpoint difference).',
-      'bounded round-trip checking of the real functions (labelled bounded)', '3/C13')
+      'fixpoint, railroads() completes with rails of equal display width. String-building pretty printers are outside the pyvc subset.',
+      'Bounds per run in the evidence. Three syntax-level limitations are known findings (both quote kinds in one token, backquote inside a constant, an empty-constant fixpoint difference). '
+      'Walker: dispatch of NodeWalker.walk is assumed to reach the walk_* methods (behavioural subtyping); walk_pattern (regex text) is not under contract; a Choice has an option and a Sequence an element.',
+      'contract-based deductive verification of the railroad layout (pyvc, display-width theory); bounded round-trip checking of the pretty printers (labelled bounded)', '3/C13')
 check('C14', 'other',
       'Bounded stand-in: ~1900 compiled models through four serialization routes (JSON, jsonimport, pickle, emitted python model source) with adversarial token/constant texts; '
       'asjson on 111k object graphs with sharing and cycles against an independent reference conversion.',
